@@ -279,6 +279,12 @@ func runC17(c *Case) {
 			e, has := h.state[k]
 			wantOK := has && e.Tomb == 0
 			c.Count("gets_compared", 1)
+			// the form of Get that also hands over the entry's times agrees about presence
+			var cv kvcrdt.Value
+			if ok2, err := h.db.Get(ctx, k, &cv); err != nil || ok2 != wantOK {
+				fail("get-differs:metadata-form", fmt.Sprintf("after %s: %s.Get(%s, *crdt.Value) = (present=%v, %v); mirror has %+v (present=%v)", after, h.name, k, ok2, err, e, has))
+				return false
+			}
 			if ok != wantOK || (ok && got != e.Val) {
 				kind := "value"
 				if has && e.Tomb != 0 {
